@@ -30,10 +30,12 @@ Verdict(e) ==
     ELSE IF BitsSet(e.case) # BitsSet(Body(e.orig)) THEN {"Harness/describe"}
     ELSE (IF ~InWord(e.lifted) THEN {"Inv_C12_InSlot/lift"} ELSE {})
          \cup (IF Judgeable(e.lifted) /\ ~LiftKeepsBits(e.orig, e.lifted) THEN {"Inv_C04_Expected/lift-bits"} ELSE {})
-         \cup (IF e.fam = "write" /\ ~PackedPlaces(e.orig, e.lifted) THEN {"Inv_C04_Expected/lift-packed"} ELSE {})
+         \* a fresh packed write: what is demanded is the meaning (PackedMeans); that every field is a span of its own
+         \* (PackedPlaces) is what the code does today and is only counted when it fails (`drift`)
+         \cup (IF e.fam = "write" /\ ~PackedMeans(e.orig, e.lifted) THEN {"Inv_C04_Expected/lift-packed"} ELSE {})
          \cup (IF e.fam = "update" /\ ~PackedMeans(e.orig, e.lifted) THEN {"Inv_C04_Expected/lift-packed-update"} ELSE {})
 
-Init == l = 1 /\ viol = << >> /\ cnt = [cases |-> 0, judged |-> 0, writes |-> 0] /\ TLCSet(1, << >>) /\ TLCSet(2, cnt)
+Init == l = 1 /\ viol = << >> /\ cnt = [cases |-> 0, judged |-> 0, writes |-> 0, drift |-> 0] /\ TLCSet(1, << >>) /\ TLCSet(2, cnt)
 
 Next ==
     /\ l <= Len(Rec)
@@ -43,7 +45,8 @@ Next ==
        ELSE LET f == Verdict(e) IN
             /\ viol' = IF f # {} /\ Len(viol) < 40 THEN Append(viol, [at |-> l, inv |-> f]) ELSE viol
             /\ cnt' = [cnt EXCEPT !.cases = @ + 1, !.judged = @ + (IF e.outcome = "ok" /\ Judgeable(e.lifted) THEN 1 ELSE 0),
-                                  !.writes = @ + (IF e.fam \in {"write", "update"} THEN 1 ELSE 0)]
+                                  !.writes = @ + (IF e.fam \in {"write", "update"} THEN 1 ELSE 0),
+                                  !.drift = @ + (IF e.fam = "write" /\ e.outcome = "ok" /\ Judgeable(e.orig) /\ ~PackedPlaces(e.orig, e.lifted) THEN 1 ELSE 0)]
     /\ TLCSet(1, viol') /\ TLCSet(2, cnt')
 
 TraceSpec == Init /\ [][Next]_<<l, viol, cnt>>
